@@ -24,6 +24,17 @@ Variable updB : B -> Z -> B.              (* UpdateMaxProbe *)
 Hypothesis upd_good : forall b p, goodB b -> 0 <= p < 2 ^ n -> goodB (updB b p).
 Hypothesis upd_covers : forall b p, goodB b -> 0 <= p < 2 ^ n -> p <= decodeB (updB b p).
 Hypothesis upd_keeps : forall b p q, goodB b -> 0 <= p < 2 ^ n -> q < 2 ^ n -> q <= decodeB b -> q <= decodeB (updB b p).
+(* the bucket's own bookkeeping, which shares bytes with the bound: AddCrt / Remove of the bucket class.
+   Aarg = the remaining arguments of those functions (hash code, slot index, ...): ARBITRARY. *)
+Variable Aarg : Type.
+Variable cntB : B -> Z.                   (* pvGetCount *)
+Variable addB : Aarg -> B -> B.           (* AddCrt on the bucket that receives the item *)
+Variable remB : Aarg -> B -> option B.    (* Remove on the bucket that loses the item; None = its precondition assertion fails *)
+Hypothesis upd_cnt : forall b p, goodB b -> 0 <= p < 2 ^ n -> cntB (updB b p) = cntB b.
+Hypothesis add_spec : forall a b, goodB b -> 0 <= cntB b < Z.of_nat cap ->
+  goodB (addB a b) /\ decodeB (addB a b) = decodeB b /\ cntB (addB a b) = cntB b + 1.
+Hypothesis rem_spec : forall a b b', goodB b -> 0 < cntB b <= Z.of_nat cap -> remB a b = Some b' ->
+  goodB b' /\ decodeB b' = decodeB b /\ cntB b' = cntB b - 1.
 
 Record table := { bk : Z -> list Z; bd : Z -> B }.
 
@@ -37,13 +48,15 @@ Fixpoint first_free (s : table) (start : Z) (p : nat) (fuel : nat) : option nat 
   | S f => if Nat.ltb (length (bk s (pidx start p))) cap then Some p else first_free s start (S p) f
   end.
 
-Definition add (s : table) (k : Z) : option table :=
+Definition add (s : table) (k : Z) (a : Aarg) : option table :=
   match first_free s (h k) 0 N with
   | None => None
   | Some p =>
       let b := pidx (h k) p in
+      (* bucket->AddCrt(...) on the receiving bucket, then startBucket.UpdateMaxProbe(probe) on the home bucket *)
       Some {| bk := fun i => if Z.eqb i b then k :: bk s i else bk s i;
-              bd := fun i => if Z.eqb i (h k) then updB (bd s i) (Z.of_nat p) else bd s i |}
+              bd := fun i => let d := if Z.eqb i b then addB a (bd s i) else bd s i in
+                             if Z.eqb i (h k) then updB d (Z.of_nat p) else d |}
   end.
 
 (* pvFind: home bucket, then probes 1..GetMaxProbe(home) *)
@@ -51,12 +64,22 @@ Definition mem (k : Z) (l : list Z) : bool := existsb (Z.eqb k) l.
 Definition find (s : table) (k : Z) : bool :=
   existsb (fun p => mem k (bk s (pidx (h k) p))) (seq 0 (S (Z.to_nat (decodeB (bd s (h k)))))).
 
-(* Remove: the key leaves its bucket (swap-with-last inside the bucket); bounds are never lowered *)
-Definition remove (s : table) (b : Z) (k : Z) : table :=
-  {| bk := fun i => if Z.eqb i b then filter (fun x => negb (Z.eqb x k)) (bk s i) else bk s i; bd := bd s |}.
+(* Remove: one occurrence of the key leaves bucket b (swap-with-last inside the bucket) and the bucket's Remove
+   rewrites its bookkeeping bytes; nothing happens when the key is not in that bucket or Remove's assertion fails *)
+Fixpoint remove_first (k : Z) (l : list Z) : list Z :=
+  match l with [] => [] | x :: t => if Z.eqb x k then t else x :: remove_first k t end.
+Definition remove (s : table) (b : Z) (k : Z) (a : Aarg) : table :=
+  if mem k (bk s b) then
+    match remB a (bd s b) with
+    | Some d => {| bk := fun i => if Z.eqb i b then remove_first k (bk s i) else bk s i;
+                   bd := fun i => if Z.eqb i b then d else bd s i |}
+    | None => s
+    end
+  else s.
 
 Definition Inv (s : table) : Prop :=
   (forall i, goodB (bd s i)) /\
+  (forall i, cntB (bd s i) = Z.of_nat (length (bk s i)) /\ (length (bk s i) <= cap)%nat) /\
   (forall b k, In k (bk s b) ->
      exists p : nat, Z.of_nat p < 2 ^ n /\ pidx (h k) p = b /\ Z.of_nat p <= decodeB (bd s (h k))).
 
@@ -90,7 +113,7 @@ Proof. unfold N. pose proof (pow_n_pos n Hn). lia. Qed.
 (* a present key is always found *)
 Theorem find_present s b k : Inv s -> In k (bk s b) -> find s k = true.
 Proof.
-  intros [Hg Hi] Hin. destruct (Hi b k Hin) as (p & Hp & Hb & Hc).
+  intros (Hg & Hc & Hi) Hin. destruct (Hi b k Hin) as (p & Hp & Hb & Hcv).
   unfold find. apply existsb_exists. exists p. split.
   - apply in_seq. lia.
   - rewrite Hb. apply mem_In. exact Hin.
@@ -103,37 +126,63 @@ Proof.
   apply mem_In in Hm. eexists; exact Hm.
 Qed.
 
-(* insertion keeps the invariant *)
-Theorem add_inv s k s' : Inv s -> add s k = Some s' -> Inv s'.
+(* the bytes of bucket i after an insertion that put the key into bucket b at probe p *)
+Lemma add_bd_facts s k a p i :
+  Inv s -> 0 <= Z.of_nat p < 2 ^ n -> (length (bk s (pidx (h k) p)) < cap)%nat ->
+  let b := pidx (h k) p in
+  let d := if Z.eqb i b then addB a (bd s i) else bd s i in
+  let d' := if Z.eqb i (h k) then updB d (Z.of_nat p) else d in
+  goodB d' /\ cntB d' = Z.of_nat (length (if Z.eqb i b then k :: bk s i else bk s i)) /\
+  (forall q, q < 2 ^ n -> q <= decodeB (bd s i) -> q <= decodeB d') /\
+  (i = h k -> Z.of_nat p <= decodeB d').
 Proof.
-  intros [Hg Hi] Hadd. unfold add in Hadd.
+  intros (Hg & Hc & Hi) Hp Hroom b d d'. subst d'.
+  assert (Hd : goodB d /\ cntB d = Z.of_nat (length (if Z.eqb i b then k :: bk s i else bk s i)) /\ decodeB d = decodeB (bd s i)).
+  { subst d. destruct (Z.eqb_spec i b) as [Heq|Hne].
+    - rewrite Heq. destruct (Hc b) as [Hcb Hlb]. destruct (add_spec a (bd s b) (Hg b)) as (H1 & H2 & H3); [subst b; lia|].
+      split; [exact H1|]. split; [|exact H2]. rewrite H3, Hcb. cbn [length]. lia.
+    - split; [apply Hg|]. split; [apply (Hc i)|reflexivity]. }
+  destruct Hd as (Hd1 & Hd2 & Hd3). clearbody d.
+  destruct (Z.eqb_spec i (h k)) as [He|He].
+  - split; [apply upd_good; assumption|]. split; [rewrite upd_cnt; assumption|]. split.
+    + intros q Hq Hqd. apply upd_keeps; try assumption. rewrite Hd3. exact Hqd.
+    + intros _. apply upd_covers; assumption.
+  - split; [exact Hd1|]. split; [exact Hd2|]. split; [intros q _ Hqd; rewrite Hd3; exact Hqd|intros; contradiction].
+Qed.
+
+(* insertion keeps the invariant *)
+Theorem add_inv s k a s' : Inv s -> add s k a = Some s' -> Inv s'.
+Proof.
+  intros HI Hadd. pose proof HI as (Hg & Hc & Hi). unfold add in Hadd.
   destruct (first_free s (h k) 0 N) as [p|] eqn:Hf; [|discriminate]. inversion Hadd; subst s'; clear Hadd.
-  apply first_free_spec in Hf. destruct Hf as [Hpr _].
+  apply first_free_spec in Hf. destruct Hf as [Hpr Hroom].
   assert (HpN : 0 <= Z.of_nat p < 2 ^ n) by (rewrite <- N_val; lia).
-  split.
-  - intros i. cbn. destruct (Z.eqb_spec i (h k)); [subst; apply upd_good; [apply Hg|exact HpN]|apply Hg].
-  - intros b k' Hin. cbn in Hin. cbn [bd].
-    destruct (Z.eqb_spec b (pidx (h k) p)) as [Hb|Hb].
-    + destruct Hin as [<-|Hin].
-      * exists p. split; [lia|]. split; [symmetry; exact Hb|]. rewrite Z.eqb_refl. apply upd_covers; [apply Hg|exact HpN].
-      * destruct (Hi b k' Hin) as (q & Hq & Hqb & Hqc). exists q. split; [exact Hq|]. split; [exact Hqb|].
-        destruct (Z.eqb_spec (h k') (h k)) as [He|He]; [|exact Hqc].
-        rewrite He in *. apply upd_keeps; [apply Hg|exact HpN|exact Hq|exact Hqc].
-    + destruct (Hi b k' Hin) as (q & Hq & Hqb & Hqc). exists q. split; [exact Hq|]. split; [exact Hqb|].
-      destruct (Z.eqb_spec (h k') (h k)) as [He|He]; [|exact Hqc].
-      rewrite He in *. apply upd_keeps; [apply Hg|exact HpN|exact Hq|exact Hqc].
+  split; [|split].
+  - intros i. cbn [bd]. apply (add_bd_facts s k a p i HI HpN Hroom).
+  - intros i. cbn [bd bk]. destruct (add_bd_facts s k a p i HI HpN Hroom) as (_ & Hcnt & _). split; [exact Hcnt|].
+    destruct (Z.eqb_spec i (pidx (h k) p)) as [Heq|Hne]; [rewrite Heq in *; cbn [length]; lia|apply (Hc i)].
+  - intros b k' Hin. cbn [bk] in Hin. cbn [bd].
+    assert (Hold : In k' (bk s b) -> exists q : nat, Z.of_nat q < 2 ^ n /\ pidx (h k') q = b /\
+              Z.of_nat q <= decodeB (let d := if Z.eqb (h k') (pidx (h k) p) then addB a (bd s (h k')) else bd s (h k') in
+                                     if Z.eqb (h k') (h k) then updB d (Z.of_nat p) else d)).
+    { intros Hin'. destruct (Hi b k' Hin') as (q & Hq & Hqb & Hqc). exists q. split; [exact Hq|]. split; [exact Hqb|].
+      destruct (add_bd_facts s k a p (h k') HI HpN Hroom) as (_ & _ & Hkeep & _). apply Hkeep; assumption. }
+    destruct (Z.eqb_spec b (pidx (h k) p)) as [Hb|Hb]; [|exact (Hold Hin)].
+    destruct Hin as [<-|Hin]; [|exact (Hold Hin)].
+    exists p. split; [lia|]. split; [symmetry; exact Hb|].
+    destruct (add_bd_facts s k a p (h k) HI HpN Hroom) as (_ & _ & _ & Hcov). apply Hcov. reflexivity.
 Qed.
 
 (* the added key is found afterwards, and it went into a bucket that had room *)
-Theorem add_then_find s k s' : Inv s -> add s k = Some s' -> find s' k = true.
+Theorem add_then_find s k a s' : Inv s -> add s k a = Some s' -> find s' k = true.
 Proof.
-  intros HI Hadd. pose proof (add_inv s k s' HI Hadd) as HI'.
+  intros HI Hadd. pose proof (add_inv s k a s' HI Hadd) as HI'.
   unfold add in Hadd. destruct (first_free s (h k) 0 N) as [p|] eqn:Hf; [|discriminate].
   inversion Hadd; subst s'. apply (find_present _ (pidx (h k) p) k HI'). cbn. rewrite Z.eqb_refl. left. reflexivity.
 Qed.
 
 (* insertion fails only when NO bucket of the table has room *)
-Theorem add_fails_only_if_all_full s k : add s k = None ->
+Theorem add_fails_only_if_all_full s k a : add s k a = None ->
   forall b, 0 <= b < 2 ^ n -> (cap <= length (bk s b))%nat.
 Proof.
   intros Hadd b Hb. unfold add in Hadd.
@@ -142,34 +191,68 @@ Proof.
   rewrite <- Hpb. apply (first_free_none s (h k) N 0 Hf). rewrite <- N_val in Hp. lia.
 Qed.
 
-Theorem remove_inv s b k : Inv s -> Inv (remove s b k).
+Lemma remove_first_In k x l : In x (remove_first k l) -> In x l.
 Proof.
-  intros [Hg Hi]. split; [exact Hg|]. intros b' k' Hin. cbn in Hin. cbn [bd remove].
-  destruct (Z.eqb_spec b' b); [apply filter_In in Hin; destruct Hin as [Hin _]|]; apply (Hi b' k' Hin).
+  induction l as [|y t IH]; cbn [remove_first]; [intros []|].
+  destruct (Z.eqb y k); [intros H; right; exact H|]. intros [->|H]; [left; reflexivity|right; exact (IH H)].
+Qed.
+Lemma remove_first_length k l : In k l -> S (length (remove_first k l)) = length l.
+Proof.
+  induction l as [|y t IH]; cbn [remove_first]; [intros []|]. intros Hin.
+  destruct (Z.eqb_spec y k) as [->|Hne]; [reflexivity|]. cbn [length]. f_equal. apply IH.
+  destruct Hin as [->|Hin]; [contradiction|exact Hin].
+Qed.
+
+Theorem remove_inv s b k a : Inv s -> Inv (remove s b k a).
+Proof.
+  intros HI. pose proof HI as (Hg & Hc & Hi). unfold remove.
+  destruct (mem k (bk s b)) eqn:Hm; [|exact HI]. apply mem_In in Hm.
+  destruct (remB a (bd s b)) as [d|] eqn:Hr; [|exact HI].
+  destruct (Hc b) as [Hcb Hlb]. pose proof (remove_first_length k _ Hm) as Hlen.
+  destruct (rem_spec a (bd s b) d (Hg b)) as (H1 & H2 & H3); [destruct (bk s b); [destruct Hm|cbn [length] in *; lia]|exact Hr|].
+  split; [|split].
+  - intros i. cbn [bd]. destruct (Z.eqb_spec i b); [exact H1|apply Hg].
+  - intros i. cbn [bd bk]. destruct (Z.eqb_spec i b) as [->|Hne]; [|apply (Hc i)]. split; lia.
+  - intros b' k' Hin. cbn [bk] in Hin. cbn [bd].
+    assert (Hin' : In k' (bk s b')) by (destruct (Z.eqb_spec b' b) as [->|]; [exact (remove_first_In _ _ _ Hin)|exact Hin]).
+    destruct (Hi b' k' Hin') as (q & Hq & Hqb & Hqc). exists q. split; [exact Hq|]. split; [exact Hqb|].
+    destruct (Z.eqb_spec (h k') b) as [He|He]; [rewrite H2, <- He; exact Hqc|exact Hqc].
 Qed.
 
 (* every reachable table (any sequence of successful insertions and removals from the empty table) *)
-Inductive op := OAdd (k : Z) | ORemove (b k : Z).
+Inductive op := OAdd (k : Z) (a : Aarg) | ORemove (b k : Z) (a : Aarg).
 Definition step (s : table) (o : op) : table :=
   match o with
-  | OAdd k => match add s k with Some s' => s' | None => s end   (* "full" exception: state unchanged *)
-  | ORemove b k => remove s b k
+  | OAdd k a => match add s k a with Some s' => s' | None => s end   (* "full" exception: state unchanged *)
+  | ORemove b k a => remove s b k a
   end.
 
 Theorem reachable_inv s ops : Inv s -> Inv (fold_left step ops s).
 Proof.
   revert s. induction ops as [|o ops IH]; intros s HI; [exact HI|]. cbn [fold_left]. apply IH.
-  destruct o as [k|b k]; cbn [step].
-  - destruct (add s k) as [s'|] eqn:Ha; [exact (add_inv s k s' HI Ha)|exact HI].
+  destruct o as [k a|b k a]; cbn [step].
+  - destruct (add s k a) as [s'|] eqn:Ha; [exact (add_inv s k a s' HI Ha)|exact HI].
   - apply remove_inv; exact HI.
 Qed.
 
 Theorem present_key_found_all_histories b0 ops b k :
-  goodB b0 ->
+  goodB b0 -> cntB b0 = 0 ->
   let s := fold_left step ops {| bk := fun _ => []; bd := fun _ => b0 |} in
   In k (bk s b) -> find s k = true.
 Proof.
-  intros Hg s Hin. apply (find_present s b k); [|exact Hin].
-  apply reachable_inv. split; [intros i; exact Hg|]. intros b' k' [].
+  intros Hg Hc0 s Hin. apply (find_present s b k); [|exact Hin].
+  apply reachable_inv. split; [intros i; exact Hg|]. split; [intros i; cbn; split; [exact Hc0|lia]|]. intros b' k' [].
+Qed.
+
+(* the bucket counters stay exact: in every reachable table the count bits of every bucket equal the number of its items *)
+Theorem count_exact_all_histories b0 ops i :
+  goodB b0 -> cntB b0 = 0 ->
+  let s := fold_left step ops {| bk := fun _ => []; bd := fun _ => b0 |} in
+  cntB (bd s i) = Z.of_nat (length (bk s i)) /\ (length (bk s i) <= cap)%nat.
+Proof.
+  intros Hg Hc0 s.
+  assert (HI : Inv s).
+  { apply reachable_inv. split; [intros j; exact Hg|]. split; [intros j; cbn; split; [exact Hc0|lia]|]. intros b' k' []. }
+  destruct HI as (_ & Hc & _). apply Hc.
 Qed.
 End Table.
